@@ -38,7 +38,7 @@ CHECKS.update({
    note=PIPE_NOTE + "; unbounded program length only through the lemma C07-b", tech=PIPE_TECH),
  "C18": dict(engine="symrun", cat="model_checking",
    text="real rref/rank/rref_and_basis_change/null_space/mat_mul/add/trf_* executed on fully symbolic m x n matrices (all 2^(mn) matrices per shape), every path's obligations (RREF shape, kernel equality, M*A=R, M*M_inv=I, kernel basis, typing, input untouched) proved by z3; two-call sequences for hidden state",
-   note="trusts z3 and the NumPy proxy; shapes beyond the bound are outside the claim", tech="symbolic execution of repo source with z3 deciding each path and obligation"),
+   note="trusts z3 and the NumPy proxy; fully symbolic shapes beyond the bound are outside the claim; library-size shapes are covered by structured matrices with 4 symbolic entries plus CONCRETE native side conditions (big-integer oracle, dtype sweep) because the mathematical-integer model cannot see machine-word effects", tech="symbolic execution of repo source with z3 deciding each path and obligation; native agreement on a model of each path"),
  "C19": dict(engine="symrun+lcq", cat="model_checking",
    text="real Graph codec on a symbolic id / adjacency (paths = ids), local complementation on a fully symbolic adjacency (all graphs at once) incl. an explicit-layer LC-class identity; class-id and grouping codecs on their complete finite domains",
    note="trusts z3 and the NumPy proxy; codec part is solver-driven enumeration", tech="symbolic execution of repo source + SMT identity over 15 adjacency bits"),
@@ -67,10 +67,10 @@ CHECKS.update({
    note="strings are solver-driven enumeration; qiskit's tableau trusted up to the bounded validation", tech="symbolic execution of repo source; z3 obligations; environment stub for qiskit's tableau"),
  "C15": dict(engine="symrun", cat="model_checking",
    text="is_equivalent_mod_phase / expand / is_qubit_entangled executed on symbolic valid tableaux; z3 proves agreement with definitions expanded over all coefficient vectors (n<=3 complete for equivalence, partitions of n=4; expand n<=6; entanglement n<=4/5)",
-   note="GF(2) dimension arguments at n>=4 need partitioning (stated); trusts z3, NumPy proxy", tech="symbolic execution + SMT with partitioned queries"),
+   note="GF(2) dimension arguments at n>=4 need partitioning (stated); trusts z3, NumPy proxy; n=5,6 only through a concrete native near-miss sweep (side condition)", tech="symbolic execution + SMT with partitioned queries"),
  "C16": dict(engine="symrun+lcq", cat="model_checking",
    text="real find_local_clifford_layer on unconstrained symbolic operator sets (n<=3) and class-graph / perturbed-random families (n=4..6): per 'layer' path z3 proves the defining equation and block validity, per 'None' path an exists-layer query over all 6^n layers is unsat; gate emission on a symbolic 2x2 block",
-   note="trusts z3, NumPy proxy (hybrid native/object matmul), ztab", tech="symbolic execution + exists-layer SMT queries per path"),
+   note="trusts z3, NumPy proxy (hybrid native/object matmul), ztab; the graph-vs-itself family also runs the native search on a model of every path (machine-integer semantics)", tech="symbolic execution + exists-layer SMT queries per path; native agreement"),
 })
 NA_REASON = {}
 
